@@ -31,3 +31,10 @@ pub fn sys_read(sys: &Sys, m: &MmapH, offset: usize, dest: &mut [u8])
 pub fn sys_flush(sys: &mut Sys, m: &MmapH) -> (r: IoResult<()>)
     ensures final(sys).files == old(sys).files
 { unimplemented!() }
+
+// SharedMmap::len(): the length of the mapping / file
+#[verifier::external_body]
+pub fn sys_len(sys: &Sys, m: &MmapH) -> (r: usize)
+    requires sys.files@.contains_key(m.file)
+    ensures r == sys.files@[m.file].len()
+{ unimplemented!() }
